@@ -198,24 +198,48 @@ def processAll (fs : List File) : Except Unit Db := fs.foldlM processFile Db.emp
 def processFileLenient (db : Db) (f : File) : Db := db.add f
 def processAllLenient (fs : List File) : Db := fs.foldl processFileLenient Db.empty
 
+/-- `DocType` as far as the three container parsers assign it -/
+inductive DocType where
+  | container | comparamSubset | comparamSpec
+deriving DecidableEq, Repr
+
+/-- the DOCTYPE of the document fragment a parsed category element gets: `DiagLayerContainer.from_et` →
+    `DocType.CONTAINER`, `ComparamSubset.from_et` → `COMPARAM_SUBSET` (also for the COMPARAM-SPEC of an ODX < 2.2 document,
+    which database.py:104-106 hands to `ComparamSubset.from_et`), `ComparamSpec.from_et` → `COMPARAM_SPEC` -/
+def File.docType (f : File) : DocType :=
+  match f.kind with
+  | .dlc => .container
+  | .subset => .comparamSubset
+  | .spec => if f.old then .comparamSubset else .comparamSpec
+
+/-- `OdxDocFragment(doc_name, doc_type)`: a document is identified by its short name AND its type — documents of
+    different categories may carry the same short name -/
+abbrev Frag := String × DocType
+
+/-- an ODXLINK id: (document fragment, local id) (`OdxLinkId.__eq__`: local id and fragments equal) -/
+abbrev Key := Frag × String
+
+def File.fragment (f : File) : Frag := (f.frag, f.docType)
+
 /-- `File._build_odxlinks`: keys are (fragment, local id) -/
-def fileLinks (f : File) : List ((String × String) × Nat) := f.ids.map fun p => ((f.frag, p.1), p.2)
+def fileLinks (f : File) : List (Key × Nat) := f.ids.map fun p => ((f.fragment, p.1), p.2)
 
 /-- `Database._build_odxlinks` (database.py:158-170): `dict.update` over subsets, then specs, then dlcs, each in
     list order; `dict.update` = append, reading = last match -/
-def links (db : Db) : List ((String × String) × Nat) :=
+def links (db : Db) : List (Key × Nat) :=
   (db.subsets ++ db.specs ++ db.dlcs).flatMap fileLinks
 
 /-- dictionary read: the last update of a key wins -/
 def lookupLast {α β : Type} [BEq α] (k : α) (l : List (α × β)) : Option β := l.reverse.lookup k
 
-def linkLookup (db : Db) (k : String × String) : Option Nat := lookupLast k (links db)
+def linkLookup (db : Db) (k : Key) : Option Nat := lookupLast k (links db)
 
 /-- the three container lists (compared up to permutation) -/
 def containerSet (db : Db) : List File × List File × List File := (db.dlcs, db.subsets, db.specs)
 
-/-- fragment names (container short names) are pairwise distinct -/
-def distinctFragments (fs : List File) : Prop := (fs.map (·.frag)).Nodup
+/-- the document fragments (short name AND document type) are pairwise distinct; documents of different categories
+    may share a short name (round 7: before, the short names alone had to be distinct) -/
+def distinctFragments (fs : List File) : Prop := (fs.map File.fragment).Nodup
 
 /-- local ids unique within each file (not needed for `load_order`; stated for reference) -/
 def localIdsUnique (fs : List File) : Prop := ∀ f ∈ fs, (f.ids.map (·.1)).Nodup
@@ -238,7 +262,7 @@ structure RawLayer where
   kind : LayerKind
   cps : List Comparam.Inst                          -- `hierarchy_element_raw.comparam_refs`
   locals : List Inherit.Obj                         -- `get_local_objects(layer)` of the object category at hand
-  parents : List ((String × String) × List Nat)     -- PARENT-REFs in document order: (DOCREF fragment, ID-REF) and the
+  parents : List (Key × List Nat)                   -- PARENT-REFs in document order: (DOCREF + DOCTYPE fragment, ID-REF) and the
                                                     --   NOT-INHERITED short names of the category at hand
 deriving Inhabited
 
@@ -252,8 +276,8 @@ def allSome {α β : Type} (f : α → Option β) : List α → Option (List β)
 /-- the tree `_compute_available_commmunication_parameters` walks from the layer the key denotes; `none`: an
     ODXLINK reference on the way does not resolve (`odxlinks.resolve` raises, `refresh()` fails) or the chain is
     longer than `fuel` (cyclic PARENT-REFs: Python ends in `RecursionError`) -/
-def unfoldCp (look : String × String → Option Nat) (raw : Nat → Option RawLayer) :
-    Nat → String × String → Option Comparam.Layer
+def unfoldCp (look : Key → Option Nat) (raw : Nat → Option RawLayer) :
+    Nat → Key → Option Comparam.Layer
   | 0, _ => none
   | fuel + 1, k =>
     match (look k).bind raw with
@@ -264,8 +288,8 @@ def unfoldCp (look : String × String → Option Nat) (raw : Nat → Option RawL
       | some ps => some (.mk r.kind r.cps ps)
 
 /-- the tree `_compute_available_objects` walks (same chains, local objects and NOT-INHERITED lists of one category) -/
-def unfoldObj (look : String × String → Option Nat) (raw : Nat → Option RawLayer) :
-    Nat → String × String → Option Inherit.Layer
+def unfoldObj (look : Key → Option Nat) (raw : Nat → Option RawLayer) :
+    Nat → Key → Option Inherit.Layer
   | 0, _ => none
   | fuel + 1, k =>
     match look k with
@@ -279,13 +303,13 @@ def unfoldObj (look : String × String → Option Nat) (raw : Nat → Option Raw
         | some ps => some (.mk o r.kind r.locals ps)
 
 /-- `layer.comparam_refs` after `refresh()` of the database `db`, for the layer with ODXLINK id `k` -/
-def effectiveComparams (db : Db) (raw : Nat → Option RawLayer) (fuel : Nat) (k : String × String) :
+def effectiveComparams (db : Db) (raw : Nat → Option RawLayer) (fuel : Nat) (k : Key) :
     Option (List Comparam.Inst) :=
   (unfoldCp (linkLookup db) raw fuel k).map Comparam.available
 
 /-- the objects of one category the layer with ODXLINK id `k` ends up with after `refresh()` (`.error`: `odxraise`
     on an inheritance conflict) -/
-def effectiveObjects (db : Db) (raw : Nat → Option RawLayer) (fuel : Nat) (k : String × String) :
+def effectiveObjects (db : Db) (raw : Nat → Option RawLayer) (fuel : Nat) (k : Key) :
     Option (Except Inherit.Err (List Inherit.Obj)) :=
   (unfoldObj (linkLookup db) raw fuel k).map Inherit.computeAvailable
 
